@@ -375,7 +375,9 @@ def code_space_overflow(mod, rec, wdt):
         return None
 
 
-def check_twin(w, d, rec, p, opkind="forward"):
+def check_twin(w, d, rec, p, opkind="forward", prop="C08"):
+    """prop="C11": the same oracle serves the freshness clause (every forward re-quantizes from the current
+    float weights): only numeric disagreements without a known-defect tag are reported there."""
     from optimum.quanto.tensor import QBytesTensor
 
     mod = rec.mod
@@ -388,7 +390,7 @@ def check_twin(w, d, rec, p, opkind="forward"):
         w.probe("twin_not_evaluable")
         w.log.add("twin-not-evaluable", rec.name, type(e).__name__)
         return
-    w.judged("C08")
+    w.judged(prop)
     out = rec.output
     if os.environ.get("QSIM_DEBUG_TWIN"):
         _dbg = getattr(w, "_dbg", [])
@@ -396,7 +398,7 @@ def check_twin(w, d, rec, p, opkind="forward"):
         w._dbg = _dbg
     if tuple(out.shape) != tuple(y64.shape):
         x = rec.input
-        w.violate("C08", "twin", opkind, dict(base_sig, issue="shape", in_rank=x.ndim), f"{rec.name}: output shape {tuple(out.shape)} twin {tuple(y64.shape)}", p)
+        w.violate(prop, "twin", opkind, dict(base_sig, issue="shape", in_rank=x.ndim), f"{rec.name}: output shape {tuple(out.shape)} twin {tuple(y64.shape)}", p)
         return
     fmax = float(torch.finfo(wdt).max)
     mask = torch.isfinite(y64) & torch.isfinite(bound) & ((y64.abs() + bound) < fmax) & ((bound / (R.C_ROUND * R.eps_of(wdt))) < 0.5 * fmax)
@@ -406,10 +408,10 @@ def check_twin(w, d, rec, p, opkind="forward"):
         w.probe(cause)
     if rec.aq is None:
         if R.is_q(out):
-            w.violate("C08", "twin", opkind, dict(base_sig, issue="type"), f"{rec.name}: quantized output without activation qtype", p)
+            w.violate(prop, "twin", opkind, dict(base_sig, issue="type"), f"{rec.name}: quantized output without activation qtype", p)
             return
         if out.dtype != wdt:
-            w.violate("C08", "twin", opkind, dict(base_sig, issue="dtype"), f"{rec.name}: output dtype {out.dtype}", p)
+            w.violate(prop, "twin", opkind, dict(base_sig, issue="dtype"), f"{rec.name}: output dtype {out.dtype}", p)
         o64 = out.detach().to(torch.float64)
         good = (o64 - y64).abs() <= bound
         bad = mask & ~good
@@ -431,7 +433,7 @@ def check_twin(w, d, rec, p, opkind="forward"):
             nonfinite = bool((bad & ~torch.isfinite(o64)).any())
             i = int(torch.nonzero(bad.reshape(-1))[0])
             w.violate(
-                "C08",
+                prop,
                 "twin",
                 opkind,
                 dict(base_sig, issue="nonfinite" if nonfinite else "value"),
@@ -441,10 +443,10 @@ def check_twin(w, d, rec, p, opkind="forward"):
         return
     # activations on: output must be re-quantized with the module's output scale
     if not isinstance(out, QBytesTensor) or out.qtype != rec.aq or out.axis is not None:
-        w.violate("C08", "twin", opkind, dict(base_sig, issue="type"), f"{rec.name}: output {type(out).__name__} {getattr(out, 'qtype', None)} axis {getattr(out, 'axis', None)}", p)
+        w.violate(prop, "twin", opkind, dict(base_sig, issue="type"), f"{rec.name}: output {type(out).__name__} {getattr(out, 'qtype', None)} axis {getattr(out, 'axis', None)}", p)
         return
     if R.tbytes(out._scale.reshape(())) != R.tbytes(rec.out_scale.to(out._scale.dtype).reshape(())):
-        w.violate("C08", "twin", opkind, dict(base_sig, issue="out_scale"), f"{rec.name}: output carries scale {out._scale.item()} module has {rec.out_scale.item()}", p)
+        w.violate(prop, "twin", opkind, dict(base_sig, issue="out_scale"), f"{rec.name}: output carries scale {out._scale.item()} module has {rec.out_scale.item()}", p)
         return
     s = float(out._scale)
     if not (s > 0 and s < float("inf")):
@@ -464,7 +466,7 @@ def check_twin(w, d, rec, p, opkind="forward"):
     if bool(bad.any()):
         i = int(torch.nonzero(bad.reshape(-1))[0])
         w.violate(
-            "C08",
+            prop,
             "twin",
             opkind,
             dict(base_sig, issue="codes"),
@@ -627,8 +629,14 @@ def memo_check(w, d, key, out, p, opkind="forward"):
 
 
 def do_forward(w, d, op, p):
-    x = make_input(d, op["input"])
     key = input_key(op["input"])
+    last = getattr(w, "last_input", None)
+    if op.get("same_tensor") and last is not None and last[0] == key and last[2] == (tuple(d.in_shape), d.dtype):
+        x = last[1]  # the very tensor object the previous forward consumed
+        w.probe("same_tensor_object_fed_to_two_models")
+    else:
+        x = make_input(d, op["input"])
+    w.last_input = (key, x, (tuple(d.in_shape), d.dtype))
     depth0 = w.depth == 0
     c13 = w.focus("C13") and depth0
     if c13:
@@ -668,6 +676,9 @@ def do_forward(w, d, op, p):
         d.calibrated = True
     injected = isinstance(exc, (InjectedFault, InjectedInterrupt))
     # ---- C08 twin on everything that completed
+    if w.focus("C11"):
+        for r in d.obs:
+            check_twin(w, d, r, p, prop="C11")
     if w.focus("C08"):
         for r in d.obs:
             check_twin(w, d, r, p)
@@ -1111,6 +1122,8 @@ def write_sd(w, sd, ser, target):
 def read_sd(rec, weights_only=True):
     from optimum.quanto import safe_load
 
+    if rec["ser"] == "direct":
+        return dict(rec["sd_obj"])  # the very tensors model.state_dict() returned, handed over in memory
     if rec["ser"] == "safetensors":
         return safe_load(rec["path"])
     if rec["ser"] == "pickle_bytes":
@@ -1158,7 +1171,7 @@ def do_save(w, d, op, p):
     sd_check_types(w, sd, "save", p)
     snap = sd_snapshot(sd)
     fd = op.get("fault")
-    if fd and fd.get("kind") == "write_fail":
+    if fd and fd.get("kind") == "write_fail" and ser != "direct":
         bump(w.res["faults_armed"], "write_fail")
         before = R.state_digest(d.model)
         failed = False
@@ -1177,7 +1190,9 @@ def do_save(w, d, op, p):
             w.violate("C10", "write_fail_side_effect", "save", {"ser": ser}, "a failed save changed the model's state", p)
     rec = {"ser": ser, "src": d.id}
     try:
-        if ser == "pickle_bytes":
+        if ser == "direct":
+            rec["sd_obj"] = sd
+        elif ser == "pickle_bytes":
             b = io.BytesIO()
             write_sd(w, sd, ser, b)
             rec["bytes"] = b.getvalue()
@@ -1188,7 +1203,7 @@ def do_save(w, d, op, p):
         w.violate("C10", "save_raises", "save", {"ser": ser, "exc": type(e).__name__, "at": quanto_site(e)}, repr(e)[:400], p)
         return "error"
     # (b) load . save is the identity on state_dicts
-    for wo in ([True, False] if ser != "safetensors" else [True]):
+    for wo in ([True, False] if ser not in ("safetensors", "direct") else [True]):
         try:
             back = read_sd(rec, weights_only=wo)
         except Exception as e:
@@ -1271,10 +1286,26 @@ def do_load(w, op, p):
             random.Random(op.get("perm_seed", 0)).shuffle(keys)
         sd = {k: sd[k] for k in keys}
         w.probe("load_reordered")
-    model = build_model(rec["arch"], rec["dtype"], op.get("init", 1), rec["wcls"])
+    # a load must leave every other live model, and every state_dict the caller still holds, as they were
+    others_before = {i: R.state_digest(x.model) for i, x in w.deps.items() if x.model is not None and not x.broken and i != op.get("into")}
+    held_before = {fid: sd_snapshot(o["sd_obj"]) for fid, o in w.files.items() if o.get("sd_obj") is not None}
+    into = w.deps.get(op.get("into")) if op.get("into") is not None else None
+    if into is not None and (into.broken or into.model is None or not into.quantized or json.dumps(into.arch, sort_keys=True) != json.dumps(rec["arch"], sort_keys=True) or into.dtype != rec["dtype"]):
+        into = None
     q = rec["qcfg"]
+    if into is not None:
+        # second load into a model that was itself loaded (or quantized) before
+        model = into.model
+        remove_observers(into)
+        w.probe("load_into_existing_target")
+        target = "existing"
+        base_sig["target"] = target
+    else:
+        model = build_model(rec["arch"], rec["dtype"], op.get("init", 1), rec["wcls"])
     try:
-        if target == "requantize":
+        if into is not None:
+            model.load_state_dict(sd, assign=bool(op.get("assign")))
+        elif target == "requantize":
             requantize(model, sd)
         else:
             if target == "default":
@@ -1288,10 +1319,17 @@ def do_load(w, op, p):
     except (InjectedFault, InjectedInterrupt):
         raise
     except Exception as e:
+        if into is not None:
+            # an incompatible second load (say an un-frozen checkpoint into a frozen model) may be refused: not judged
+            into.broken = True
+            w.probe("reload_refused:" + type(e).__name__)
+            return "refused"
         has_qln = any(m["wq"] is None for m in rec["info"].values())
         w.violate("C10", "load_raises", "load", dict(base_sig, exc=type(e).__name__, at=quanto_site(e), qlayernorm=has_qln), repr(e)[:500], p)
         return "error:" + type(e).__name__
-    n = Dep(op["new"])
+    if into is not None:
+        w.deps.pop(into.id, None)
+    n = Dep(op["new"] if into is None else into.id)
     n.arch, n.in_shape, n.dtype, n.wcls, n.init = rec["arch"], rec["in_shape"], rec["dtype"], rec["wcls"], op.get("init", 1)
     n.model = model
     n.model.eval()
@@ -1303,7 +1341,7 @@ def do_load(w, op, p):
     n.memo = dict(rec["memo"]) if w.focus("C10") else {}
     n.oplog = (list(rec["oplog"]) + ["load:" + target] + (["restart"] if restart else [])) if w.focus("C10") else []
     n.taint = rec.get("taint")
-    n.origin = {"default": "loaded-default", "same": "loaded-same", "requantize": "requantized"}[target]
+    n.origin = {"default": "loaded-default", "same": "loaded-same", "requantize": "requantized", "existing": "reloaded"}[target]
     n.frozen = rec["frozen"]
     n.ema = copy.deepcopy(rec["ema"])
     n.calibrated = rec["calibrated"]
@@ -1315,6 +1353,13 @@ def do_load(w, op, p):
         w.probe("restart_then_requantize")
     install_observers(n)
     w.deps[n.id] = n
+    if into is not None:
+        # the property speaks of freshly quantized targets: a model that is loaded a second time is not judged
+        # itself (it starts a lineage of its own); what the load did to *others* is
+        n.memo, n.oplog, n.src_fid = {}, [], None
+        n.stamp += 1000
+        side_effects(w, n, op, others_before, held_before, base_sig, p)
+        return "ok:existing"
     # (c) the loaded model holds what was saved
     try:
         snap2 = sd_snapshot(model.state_dict())
@@ -1342,7 +1387,20 @@ def do_load(w, op, p):
         if t.device.type != "cpu":
             w.violate("C10", "load_equal", "load", dict(base_sig, issue="device"), f"{name} on {t.device}", p)
     check_weights_invariant(w, n, "load:" + target, p)
+    side_effects(w, n, op, others_before, held_before, base_sig, p)
     return "ok:" + target
+
+
+def side_effects(w, n, op, others_before, held_before, base_sig, p):
+    for i, dg in others_before.items():
+        x = w.deps.get(i)
+        if x is not None and x.model is not None and R.state_digest(x.model) != dg:
+            w.violate("C10", "load_side_effect", "load", dict(base_sig, who="other_model"), f"loading into dep {n.id} changed the state of dep {i}", p)
+            x.broken = True
+    for fid, other in w.files.items():
+        if other.get("sd_obj") is not None and fid in held_before and sd_diff(held_before[fid], sd_snapshot(other["sd_obj"]))[0]:
+            w.violate("C10", "load_side_effect", "load", dict(base_sig, who="held_state_dict"), f"loading file {op['fid']} changed the tensors of state_dict {fid} still held by the caller", p)
+            other["sd_obj"] = None
 
 
 # ------------------------------------------------------------------------------------------------
@@ -1518,6 +1576,9 @@ def do_train(w, d, op, p):
     if w.focus("C08"):
         for r in recs:
             check_twin(w, d, r, p, "train")
+    if w.focus("C11"):
+        for r in recs:
+            check_twin(w, d, r, p, "train", prop="C11")
     lr = op.get("lr")
     if lr:
         with torch.no_grad():
